@@ -119,6 +119,20 @@ def with_redundancy(rng, ts, ctx):
         k = rng.choice([F(1), F(2), F(1, 2), F(3)])
         shift = rng.choice([F(0), F(0), F(0), F(1), F(2)])
         out.insert(rng.randint(0, len(out)), ({v: -k * a for v, a in t[0].items()}, -k * t[1] + k * shift))
+    if out and rng.random() < 0.1:
+        # two terms of very different scales over a variable of their own: a coefficient of 7.6e-6 that still matters at the edge
+        # of the box next to one of 1024
+        t = rng.choice(out)
+        v0 = next(iter(t[0]))
+        out.insert(rng.randint(0, len(out)), ({v0: t[0][v0], "s": F(rng.choice([1, -1]), 2 ** 17)}, t[1] + F(rng.randint(0, 2))))
+        out.insert(rng.randint(0, len(out)), ({"t": F(1), "s": F(rng.choice([1024, -2048]))}, F(rng.randint(0, 3))))
+    multi = [t for t in (ctx or []) if len(t[0]) >= 2]
+    if multi and rng.random() < 0.2:
+        # a near-copy of a context term (one coefficient larger by 8e-6 relative): NOT implied by the context -- the two differ
+        # by about 8e-3 times the coefficient at the edge of the box
+        t = rng.choice(multi)
+        v = rng.choice(list(t[0]))
+        out.insert(rng.randint(0, len(out)), ({**t[0], v: t[0][v] * (1 + F(1, 2 ** 17))}, t[1]))
     return out
 
 
